@@ -349,6 +349,7 @@ func (f *Fragment) SetTrunDataOffsets() {
 	sort.Slice(truns, func(i, j int) bool {
 		return truns[i].writeOrderNr < truns[j].writeOrderNr
 	})
+	_ = f.Mdat.Size() // Marks mdat as large-size if its payload needs it, so that HeaderSize is what will be written
 	dataOffset := f.Moof.Size() + f.Mdat.HeaderSize()
 	for _, trun := range truns {
 		trun.DataOffset = int32(dataOffset)
